@@ -278,9 +278,13 @@ def _pool():
     return _POOL
 
 
+_SEQ = [0]
+
+
 def _run_session(tag, cfg, scenarios, model_coarse=None):
-    tag = f"{tag}_{os.getpid()}_{id(scenarios)}"
     """-> parsed session output (simulated kills, one process)"""
+    _SEQ[0] += 1
+    tag = f"{tag}_{_SEQ[0]}"
     w = os.path.join(_work(), "sess_" + tag)
     shutil.rmtree(w, ignore_errors=True)
     os.makedirs(w)
@@ -445,9 +449,9 @@ def _run_cfg(ctx, cfg):
         nf = mo[p]["fine"]
         ks = [[k] for k in range(nf + 1)]
         rng = __import__("random").Random(ctx.rng.randrange(10 ** 9))
-        for _ in range(ctx.n(12, 60)):
+        for _ in range(ctx.n(6, 60)):
             ks.append([rng.randrange(1, nf), rng.randrange(0, 16)])
-        for _ in range(ctx.n(2, 12)):
+        for _ in range(ctx.n(1, 12)):
             ks.append([rng.randrange(1, nf), rng.randrange(0, 16), rng.randrange(0, 16)])
         scen[p] = ks
     sims = {p: ctx.model(DRIVER, [dict(op="sim", proto=p, n=n, r0=r0, kills=ks) for ks in scen[p]]) for p in protos}
@@ -544,7 +548,7 @@ def _run_cfg(ctx, cfg):
     cand = [sid for sid, ks in enumerate(scen[proto]) if str(sid) in allsc and sid not in pick]
     ctx.rng.shuffle(cand)
     mid = [sid for sid in cand if any(k.get("when") == "partial" for k in allsc[str(sid)]["kills"])]
-    pick += mid[:ctx.n(2, 8)] + [sid for sid in cand if sid not in mid][:ctx.n(2, 10)]
+    pick += mid[:ctx.n(1, 8)] + [sid for sid in cand if sid not in mid][:ctx.n(1, 10)]
     try:
         reals = _pool().map(lambda sid: (sid, _scenario_real(f"{cfg['seed']}_{sid}", cfg, allsc[str(sid)]["kills"])), pick)
     except Infra as e:
